@@ -38,6 +38,10 @@ type Val struct {
 	// Pure: built by constructor syntax from primitives / pure values only; `==` on
 	// collections is only defined (for the check) on pure operands.
 	Pure bool
+	// NZ: a zero that the evaluator's float library may hold as negative zero (result of
+	// negating zero or of an operation on a negative / tainted operand). Its conversion to
+	// string is outside the checked domain.
+	NZ bool
 }
 
 func vNull(tag string) Val  { return Val{K: KNull, S: tag} }
